@@ -300,3 +300,30 @@ func replaceIn(fn, old, new string, nth int) func(p *Prog) (string, []byte, erro
 		return file, out, nil
 	}
 }
+
+// replaceBoth applies two text replacements inside the same function.
+func replaceBoth(fn, old1, new1, old2, new2 string) func(p *Prog) (string, []byte, error) {
+	return func(p *Prog) (string, []byte, error) {
+		f := p.findFunc(fn)
+		if f == nil || f.Syntax() == nil {
+			return "", nil, errNotFound("function " + fn)
+		}
+		node := f.Syntax()
+		file, src, err := p.fileOf(node)
+		if err != nil {
+			return "", nil, err
+		}
+		s := p.Fset.Position(node.Pos()).Offset
+		e := p.Fset.Position(node.End()).Offset
+		body := string(src[s:e])
+		if !strings.Contains(body, old1) || !strings.Contains(body, old2) {
+			return "", nil, errNotFound("anchor text in " + fn)
+		}
+		body = strings.Replace(body, old1, new1, 1)
+		body = strings.Replace(body, old2, new2, 1)
+		out := append([]byte{}, src[:s]...)
+		out = append(out, body...)
+		out = append(out, src[e:]...)
+		return file, out, nil
+	}
+}
